@@ -389,8 +389,9 @@ def oracle_C12(sc, obs, baseline=None):
         return None
     dur = sc["dur"] * u
     t_stop, t_cont = stops[0]
-    if t_stop > dur - eps:
-        return None
+    ended = obs.get("end_t") or obs["nextest_exit_t"]
+    if t_stop > dur - eps or t_stop > ended - eps:
+        return None  # the test was over (or had been terminated) before the stop
     if sc.get("stops", True):
         got = [s for _, s in obs["sig_test"]]
         if 20 not in got:
@@ -497,7 +498,18 @@ def run_scenarios(rig, scs, par=4, timeout=40):
 def check_family(chk, rig, scs, oracle, tag, retries=2):
     """correspondence + oracle over the scenarios; timing-dependent failures must reproduce with the
     time unit doubled (twice) before they count. Returns number of scenarios evaluated."""
+    # keep only scenarios whose predicted outcome does not hinge on a coincidence of two instants:
+    # the same qualitative prediction (result, slow flag, sequence of signals/events) must come out
+    # when the test's own duration is 0.4 units shorter or longer
+    def shape(p):
+        return None if p.get("panicked") else (p["result"], p["slow"], [c for _, c in p["trace"]])
+    lo = predict([dict(sc, dur=max(0.05, sc["dur"] - 0.4)) for sc in scs], tag + "lo")
+    hi = predict([dict(sc, dur=sc["dur"] + 0.4) for sc in scs], tag + "hi")
     preds = predict(scs, tag)
+    keep = [i for i in range(len(scs)) if shape(lo[i]) == shape(preds[i]) == shape(hi[i])]
+    chk.count("scenarios_dropped_as_threshold_coincidences", len(scs) - len(keep))
+    scs = [scs[i] for i in keep]
+    preds = [preds[i] for i in keep]
     obss = run_scenarios(rig, scs)
     for sc, p, o in zip(scs, preds, obss):
         chk.count("e2e_runs")
